@@ -48,6 +48,9 @@ FILLER = ['a', 'b', 'x.y', '1', "'s'", ',', ',', '=', '+', '*', 'when', 'then', 
           'as', ':=', 'f', 'over', 'values', '/*c*/', '--c\n', 'order by', 'in', 'i', '..', 'while', 'end while', ';', 'not', 'null']
 
 
+JOINERS = [',', '::', 'as', ':=', '=', '+', '.', 'and', '||', '<>']
+
+
 @st.composite
 def forest(draw, depth=3, width=4):
     out = []
@@ -59,6 +62,13 @@ def forest(draw, depth=3, width=4):
             o, c = draw(st.sampled_from(PAIRS))
             out.append(o)
             out.extend(draw(forest(depth - 1, width)))
+            tail = draw(st.integers(0, 5))
+            if tail == 0:
+                # one or two complete joins, then a joiner left dangling right before the closer / right after the opener
+                j = draw(st.sampled_from(JOINERS))
+                out.extend(['a', j, 'b', j] if draw(st.booleans()) else ['a', '::', 'int', ',', 'b', j])
+            elif tail == 1:
+                out.insert(len(out) - 0, draw(st.sampled_from(JOINERS)))
             out.append(c)
     return out
 
@@ -93,3 +103,49 @@ def comment_led(max_tokens=10):
     cm = st.sampled_from(['/* c */', '/*c*/', '-- remark\n', '--x\n', '/* a */ /* b */', '/*+ hint */', '# c\n'])
     first = st.sampled_from(['as', 'AS', '::', ':=', '.', '=', '+', ',', 'x', 'a.b', '(', 'and', 'over', 'in', 'like', 'desc', '[', 'case', 'end', "at time zone 'utc'"])
     return st.tuples(st.sampled_from(['', '', 'select 1; ', ' ', '\n']), cm, st.sampled_from(['', ' ', '\n']), first, st.sampled_from(['', ' ']), soup(max_tokens)).map(''.join)
+
+
+def _all_dictionary_words():
+    from sqlparse import keywords as K
+    words = set()
+    for name in dir(K):
+        if name.startswith('KEYWORDS'):
+            words |= set(getattr(K, name))
+    return sorted(w for w in words if w.replace('_', '').isalnum())
+
+
+_DICT_WORDS = None
+
+
+@st.composite
+def dictionary_soup(draw):
+    """every word of the keyword dictionaries in operand / operator / call / qualified positions: a grouping pass that
+    starts to treat some keyword specially (re-types it, joins around it) shows up here whichever word it is"""
+    global _DICT_WORDS
+    if _DICT_WORDS is None:
+        _DICT_WORDS = _all_dictionary_words()
+    w = draw(st.sampled_from(_DICT_WORDS))
+    w = draw(st.sampled_from([w, w.lower(), w.capitalize()]))
+    a = draw(st.sampled_from(['a', '10', 'x.y', "'s'", '(b + 1)', 'f(1)', '?']))
+    b = draw(st.sampled_from(['b', '3', 't.c', "'t'", '(c)', 'g(2)', ':p']))
+    shape = draw(st.sampled_from(['select {a} {w} {b}', 'select x from t where ({a} {w} {b}) = 0', 'update t set n = {a} {w} {b} where id = 1',
+                                  'select {w} {a}, {b}', 'select {a} {w}, {b}', '{w} ({a}, {b})', 'select {a}.{w}, {w}.{b}', 'select {a} as {w}, {b} {w}',
+                                  '{w} {w} {a}; {w}', 'select {a} from t {w} {b} order by 1', 'case {w} when {a} then {b} end', '{a} {w} {b} {w} {a}']))
+    return shape.format(a=a, b=b, w=w)
+
+
+DICT_SHAPES = ['select {a} {w} {b}', 'select x from t where ({a} {w} {b}) = 0', 'update t set n = {a} {w} {b} where id = 1',
+               'select {w} {a}, {b}', 'select {a} {w}, {b}', '{w} ({a}, {b})', 'select {a}.{w}, {w}.{b}', 'select {a} as {w}, {b} {w}',
+               '{w} {w} {a}; {w}', 'select {a} from t {w} {b} order by 1', 'case {w} when {a} then {b} end', '{a} {w} {b} {w} {a}']
+
+
+def dictionary_enumeration():
+    """every dictionary word in every shape (finite: ~800 words x 12 shapes), operands fixed per shape index"""
+    global _DICT_WORDS
+    if _DICT_WORDS is None:
+        _DICT_WORDS = _all_dictionary_words()
+    ops = [('a', 'b'), ('10', '3'), ('x.y', 't.c'), ("'s'", "'t'"), ('(b + 1)', '(c)'), ('f(1)', 'g(2)')]
+    for wi, w in enumerate(_DICT_WORDS):
+        for si, shape in enumerate(DICT_SHAPES):
+            a, b = ops[(wi + si) % len(ops)]
+            yield shape.format(a=a, b=b, w=w if (wi + si) % 3 else w.lower())
